@@ -538,7 +538,57 @@ def r1810(ctx):
         raise AnalysisError("R-18.10: no element access of the interface / move lists found in check_config")
 
 
+def r1811(ctx):
+    """check_config looks an engine section up (`config[<engine name>]`) only for names it has already
+    found defined: either the name of the current iteration of the validating loop (after its raise), or
+    any name once the validating loop has completed. A look-up of *another* name inside the validating
+    loop reaches names not validated yet: an undefined engine listed after a gromacs engine dies with a
+    bare KeyError instead of a configuration error."""
+    rid = "R-18.11"
+    f = ctx.tree.func(SETUP, "check_config")
+    cfg = cfg_of(f)
+    fl = flow_of(f)
+    # the collection of engine names and the loop that validates them
+    vloops = []
+    for lp in [x for x in walk_local(f) if isinstance(x, ast.For) and isinstance(x.target, ast.Name)]:
+        for st in ast.walk(lp):
+            if isinstance(st, ast.If) and st.body and isinstance(st.body[-1], ast.Raise) and isinstance(st.test, ast.Compare) and len(st.test.ops) == 1 and isinstance(st.test.ops[0], ast.NotIn) \
+                    and isinstance(st.test.left, ast.Name) and st.test.left.id == lp.target.id and ast.unparse(st.test.comparators[0]).replace(".keys()", "") == "config":
+                vloops.append((lp, st))
+    if len(vloops) != 1:
+        raise AnalysisError(f"R-18.11: {len(vloops)} loops validating the engine names found (expected 1)")
+    V, vif = vloops[0]
+    names_src = ast.unparse(V.iter)
+    n = 0
+    for sub in [x for x in walk_local(f) if isinstance(x, ast.Subscript) and isinstance(x.value, ast.Name) and x.value.id == "config" and isinstance(x.slice, ast.Name)]:
+        key = sub.slice.id
+        # the loop that binds the key
+        binder = None
+        p_ = getattr(sub, "_parent", None)
+        while p_ is not None and p_ is not f:
+            if isinstance(p_, ast.For) and isinstance(p_.target, ast.Name) and p_.target.id == key:
+                binder = p_
+                break
+            p_ = getattr(p_, "_parent", None)
+        if binder is None or ast.unparse(binder.iter) != names_src:
+            continue
+        n += 1
+        un = cfg.node_of(sub)
+        inV = any(sub is x for x in ast.walk(V))
+        if binder is V and cfg.dominates(cfg.node_of(vif.test), un) and not any(sub is x for x in ast.walk(vif)):
+            ctx.ok(rid, sub, f"`{short(sub, 30)}`: the name of the current iteration, after its definedness test")
+        elif not inV and cfg.dominates(cfg.node_of(V), un):
+            ctx.ok(rid, sub, f"`{short(sub, 30)}` is evaluated after the loop that validates every engine name")
+        else:
+            ctx.bad(rid, sub, f"check_config evaluates `{short(sub, 30)}` for an engine name that has not passed the definedness test yet (the look-up sits inside the validating loop and ranges over all names): an undefined engine listed after the current one dies with a bare KeyError instead of a configuration error",
+                    construct=f"check_config: {short(sub, 30)} before every engine name is validated")
+    if n == 0:
+        raise AnalysisError("R-18.11: no engine-section look-up found in check_config")
+
+
 def run(ctx):
+    ctx.rule("R-18.11", "engine sections are looked up only for names already found defined: the current name after its test, or any name after the validating loop", floor=2)
+    ctx.attempt(r1811, ctx)
     ctx.rule("R-18.10", "the validator itself does not fail: every element access of the interface / move lists in check_config is dominated by the clause that rejects a list too short for it (a bad configuration gets a configuration error, not an IndexError)", floor=4)
     ctx.attempt(r1810, ctx)
     ctx.rule("R-18.5", "every configuration key is validated and used under the same section path", floor=20)
@@ -566,6 +616,7 @@ def run(ctx):
 
 
 VARIANTS = [
+    B("c18-gromacs-check-inside-the-defined-loop", SETUP, "            raise TOMLConfigError(f\"Engine '{key1}' not defined!\")\n\n    # gromacs check\n    for key1 in unique_engines:\n        if config[key1][\"class\"] == \"gromacs\":", "            raise TOMLConfigError(f\"Engine '{key1}' not defined!\")\n\n        # gromacs check\n        if config[key1][\"class\"] == \"gromacs\":", "R-18.11", control=True, why="seeded C18_p"),
     B("c18-move-count-clause-after-the-wf-loop", SETUP, "    if n_ens > n_sh_moves:\n        raise TOMLConfigError(\n            f\"N_interfaces {n_ens} > N_shooting_moves {n_sh_moves}!\"\n        )\n\n", "", "R-18.10", control=True, also=[(SETUP, "    # engine checks\n    unique_engines = []", "    if n_ens > n_sh_moves:\n        raise TOMLConfigError(\n            f\"N_interfaces {n_ens} > N_shooting_moves {n_sh_moves}!\"\n        )\n\n    # engine checks\n    unique_engines = []")], why="seeded C18_n"),
     B("c18-interface-count-clause-after-first-use", SETUP, "    if n_ens < 2:\n        raise TOMLConfigError(\"Define at least 2 interfaces!\")\n\n", "", "R-18.10", also=[(SETUP, "    if n_workers > n_ens - 1:", "    if n_ens < 2:\n        raise TOMLConfigError(\"Define at least 2 interfaces!\")\n\n    if n_workers > n_ens - 1:")], why="pre-fix order (fixed by 4a1e4aa)"),
     K("c18-keep-move-count-clause-first", SETUP, "    if n_ens > n_sh_moves:\n        raise TOMLConfigError(\n            f\"N_interfaces {n_ens} > N_shooting_moves {n_sh_moves}!\"\n        )\n\n", "", also=[(SETUP, "    if n_workers > n_ens - 1:", "    if n_sh_moves < n_ens:\n        raise TOMLConfigError(\n            f\"N_interfaces {n_ens} > N_shooting_moves {n_sh_moves}!\"\n        )\n\n    if n_workers > n_ens - 1:")], why="moved up and respelled: still dominates the loop"),
